@@ -89,6 +89,11 @@ def fcall (f : String) (args : List Expr) : Expr := .call (.name f) args [] []
 /-- Method-call node `v.m(args)` with no keywords. -/
 def mcall (v : Expr) (m : String) (args : List Expr) : Expr := .call (.attr v m) args [] []
 
+/-- no name occurs twice -/
+def distinctS : List String → Bool
+  | [] => true
+  | s :: ss => !ss.contains s && distinctS ss
+
 /-! ### size and the clean induction principle -/
 
 mutual
